@@ -266,3 +266,17 @@ PROPS['C03'] = {
     'assumptions': A_COMMON,
     'not_decided': ['acyclicity / connectivity after each surgery (A-GRAPH: lemmas L1-L9)', 'counting clauses (branches = nodes - 1; all = internal + external)', 'global symmetric adjacency as a quantified invariant'],
 }
+
+PROPS['C05'] = {
+    'level': 'proof', 'claimed': True,
+    'claim': 'unbounded proofs on the real code: Reroot / reroot_nocheck / ReorderEdges write only the root pointer and swap left/right of branches - every branch keeps its two ends as a set, lengths, supports, p-values, names and all adjacency arrays are not written; a tip is refused with an error and the root stays; UnRoot leaves an unrooted tree alone and otherwise suppresses the bifurcating root: the new root is its first child unless that is a tip, the old root is dead, the merging branch is fresh, the last branch of the new root, points away from it and carries max(0,l1)+max(0,l2) exactly when either length is present; RotateNeighbors keeps (neighbour, branch) pairs together (every slot ends up holding an original pair) and draws rand.Intn(i+1); LeastCommonAncestorRecur adds the wanted and foreign tip counts of each child exactly once (nothing for the side it came from) and reports every foreign tip below a node whether or not the node has a wanted tip below it; RerootOutGroup gives both halves of the separating branch half of its length (when it has one) and its support, unconditionally; RerootMidPoint returns an error instead of indexing an empty path, and cuts the chosen branch into two parts whose lengths add up to the old length, both with its support',
+    'level_note': INVNOTE + '; ReinitInternalIndexes / LeastCommonAncestorUnrooted / MaxLengthPath enter through assumed thin contracts; monophyly verdict = split membership and maximality of the longest path are whole-tree facts not under contract; inside the midpoint search loop the index staying within the path needs the sum of lengths (reported, not claimed); floating-point rounding of length/2 (A-FP)',
+    'packages': ['./tree', './hashmap'],
+    'functions': ['(*tree.Tree).UnRoot', '(*tree.Tree).ReorderEdges', '(*tree.Tree).reroot_nocheck', '(*tree.Tree).Reroot', '(*tree.Node).RotateNeighbors',
+                  ('(*tree.Tree).LeastCommonAncestorRecur', {'match': [r'^step', r'^return', r'^post', r'^inv']}),
+                  ('(*tree.Tree).RerootOutGroup', {'match': [r'^callsite']}),
+                  ('(*tree.Tree).RerootMidPoint', {'match': [r'^callsite', r'^inv', r'^bounds\[(0|1|2|3|4|6|7|8|9|10|11)\]'] })],
+    'trusted_base': TB_COMMON,
+    'assumptions': A_COMMON,
+    'not_decided': ['tip set / split set / path lengths invariance as whole-tree consequences (L7, L2, L3: A-GRAPH)', 'outgroup is exactly one root clade (needs the LCA monophyly stretch contract)', 'root halfway along a longest path (needs MaxLengthPath maximality)'],
+}
